@@ -464,7 +464,7 @@ pub fn seeds(tier: Tier) -> Vec<Vec<u8>> {
     let mut real = real_payloads();
     real.sort_by_key(|p| p.len());
     real.dedup_by_key(|p| p.len());
-    let take = tier.pick(3, 12);
+    let take = tier.pick(6, 16);
     // shortest, and spread over the length range
     let n = real.len();
     if n > 0 {
@@ -539,6 +539,16 @@ fn mutation_family(seed_set: &[Vec<u8>], tier: Tier, proto: &Acc, double: bool) 
                     let mut x = seed.clone();
                     x[p] = v;
                     feed_both(&mut acc, &x, "single-byte substitutions");
+                    // double defects: the same substitution combined with a defect at the very end
+                    // (missing / wrong end marker, cut checksum) - error precedence must agree too
+                    if (STRUCT_BYTES.contains(&v) || v == seed[p] ^ 0x01) && p + 4 < seed.len() {
+                        let n = x.len();
+                        acc.feed(&x[..n - 1], "substitution + truncated tail");
+                        acc.feed(&x[..n - 2], "substitution + truncated tail");
+                        let mut y = x.clone();
+                        y[n - 1] = 0x01;
+                        acc.feed(&y, "substitution + wrong end marker");
+                    }
                     if double && seed.len() <= 64 && STRUCT_BYTES.contains(&v) {
                         for q in p + 1..seed.len() {
                             for &w in &STRUCT_BYTES {
@@ -626,11 +636,40 @@ fn short_strings_family(maxlen: u32, proto: &Acc) -> Acc {
     acc
 }
 
+/// Every string up to `maxlen` over the 16 structural bytes (TLF heads, markers, tags).
+fn struct_strings_family(maxlen: u32, proto: &Acc) -> Acc {
+    let total: u64 = (0..=maxlen).map(|l| 16u64.pow(l)).sum();
+    let parts = par_chunks(total, 1 << 14, |a, b| {
+        let mut acc = Acc::new(&proto.report, proto.rename_c12);
+        for idx in a..b {
+            let mut i = idx;
+            let mut len = 0u32;
+            while i >= 16u64.pow(len) {
+                i -= 16u64.pow(len);
+                len += 1;
+            }
+            let mut x = vec![0u8; len as usize];
+            for k in (0..len as usize).rev() {
+                x[k] = STRUCT_BYTES[(i & 0xf) as usize];
+                i >>= 4;
+            }
+            acc.feed(&x, "all strings over 16 structural bytes up to the stated length");
+        }
+        acc
+    });
+    let mut acc = Acc::new(&proto.report, proto.rename_c12);
+    for p in parts {
+        acc.merge(p);
+    }
+    acc
+}
+
 /// Raw TLF bytes of type `ty` whose concatenated nibbles equal `v`, in `n` bytes (n >= minimal).
 pub fn raw_tlf(ty: Ty, v: u128, n: usize) -> Vec<u8> {
     let mut out = vec![];
     for k in 0..n {
-        let nib = ((v >> (4 * (n - 1 - k))) & 0xf) as u8;
+        let sh = 4 * (n - 1 - k);
+        let nib = if sh >= 128 { 0 } else { ((v >> sh) & 0xf) as u8 };
         let more = if k + 1 < n { 0x80 } else { 0 };
         let tb = if k == 0 { ty.bits() } else { 0 };
         out.push(more | tb | nib);
@@ -842,6 +881,15 @@ fn c12_long_tlfs(proto: &Acc) -> Acc {
                 let n = min_nibbles(l + 16) + extra;
                 tl.push(raw_tlf(ty, l, n));
                 tl.push(raw_tlf(ty, l + n as u128, n));
+            }
+        }
+    }
+    // very long fields with leading zero groups: the value still fits 32 bits, so the SML rule
+    // accepts them; the field's own byte count crosses every 8- and 16-bit counter width
+    for n in [13usize, 16, 17, 64, 127, 128, 254, 255, 256, 257, 258, 300, 1000, 65535, 65536, 65537] {
+        for ty in [Ty::Octet, Ty::Uint, Ty::List] {
+            for v in [0u128, 1, 2, n as u128, n as u128 + 1, n as u128 + 3, 7] {
+                tl.push(raw_tlf(ty, v, n));
             }
         }
     }
@@ -1089,24 +1137,27 @@ pub fn run(prop: &'static str, tier: Tier) -> ! {
     fam("real meter transmissions", real_family(&proto), &mut all);
     match prop {
         "C03" => {
-            let entries = entry_space(tier == Tier::Quick);
+            let entries = entry_space(false);
             let files: Vec<RFile> = entries.into_iter().map(|e| vec![getlist(vec![e])]).collect();
             extra.put("abstract_entry_files", files.len());
-            fam("entry product x encodings", gen_family(&files, tier.pick(1, 2), &proto, "generated: list-entry product x valid encodings"), &mut all);
+            // quick: the full entry product with <= 1 non-default encoding choice, every 5th entry with <= 2
+            fam("entry product x encodings (<= 1 choice)", gen_family(&files, 1, &proto, "generated: list-entry product x valid encodings"), &mut all);
+            let sub: Vec<RFile> = files.iter().step_by(tier.pick(5, 1)).cloned().collect();
+            fam("entry product x encodings (<= 2 choices)", gen_family(&sub, 2, &proto, "generated: list-entry product x valid encodings (two choices)"), &mut all);
             let msgs = message_space();
             extra.put("abstract_message_files", msgs.len());
-            fam("message product x encodings", gen_family(&msgs, tier.pick(1, 2), &proto, "generated: message-level product x valid encodings"), &mut all);
-            if tier == Tier::Thorough {
-                let few: Vec<RFile> = seeds_as_files();
-                fam("seed files x 3 deviations", gen_family(&few, 3, &proto, "generated: seed files x up to 3 non-default choices"), &mut all);
-            }
+            fam("message product x encodings", gen_family(&msgs, 2, &proto, "generated: message-level product x valid encodings"), &mut all);
+            let few: Vec<RFile> = seeds_as_files();
+            fam("seed files x 3 deviations", gen_family(&few, tier.pick(3, 4), &proto, "generated: seed files x up to 3-4 non-default choices"), &mut all);
             all.counts.require(&["encodings with non-default choices", "inputs the allocating parser accepts"]);
         }
         "C04" => {
-            fam("short strings", short_strings_family(tier.pick(2, 3), &proto), &mut all);
-            fam("mutations", mutation_family(&tier.pick(small_seeds.clone(), seed_set.clone()), tier, &proto, tier == Tier::Thorough), &mut all);
-            fam("splices", splice_family(&small_seeds, tier.pick(12, 150), &proto), &mut all);
-            fam("tlf replacements", tlf_replacement_family(&small_seeds, &proto), &mut all);
+            fam("short strings", short_strings_family(3, &proto), &mut all);
+            fam("structural strings", struct_strings_family(tier.pick(5, 6), &proto), &mut all);
+            fam("mutations", mutation_family(&seed_set, Tier::Thorough, &proto, tier == Tier::Thorough), &mut all);
+            fam("splices", splice_family(&small_seeds, tier.pick(150, 2000), &proto), &mut all);
+            fam("tlf replacements", tlf_replacement_family(&seed_set, &proto), &mut all);
+            fam("long tlfs", c12_long_tlfs(&proto), &mut all);
             all.counts.require(&["checksum-repaired variants", "inputs the independent reader accepts", "inputs the independent reader rejects"]);
         }
         "C06" => {
@@ -1115,32 +1166,32 @@ pub fn run(prop: &'static str, tier: Tier) -> ! {
             extra.put("bound", "largest request and peak live heap <= 4096 + 128*|x| inside complete::parse; 0 allocator calls while iterating streaming::Parser");
             fam("calibration", cal, &mut all);
             fam("tlf replacements", tlf_replacement_family(&seed_set, &proto), &mut all);
-            fam("mutations", mutation_family(&small_seeds, Tier::Quick, &proto, false), &mut all);
-            fam("short strings", short_strings_family(2, &proto), &mut all);
+            fam("mutations", mutation_family(&seed_set, Tier::Thorough, &proto, tier == Tier::Thorough), &mut all);
+            fam("short strings", short_strings_family(3, &proto), &mut all);
+            fam("structural strings", struct_strings_family(tier.pick(5, 6), &proto), &mut all);
             fam("long tlfs", c12_long_tlfs(&proto), &mut all);
-            if tier == Tier::Thorough {
-                let msgs = message_space();
-                fam("message product", gen_family(&msgs, 1, &proto, "generated: message-level product x valid encodings"), &mut all);
-                fam("splices", splice_family(&small_seeds, 60, &proto), &mut all);
-            }
+            let msgs = message_space();
+            fam("message product", gen_family(&msgs, 1, &proto, "generated: message-level product x valid encodings"), &mut all);
+            fam("splices", splice_family(&small_seeds, tier.pick(60, 600), &proto), &mut all);
             all.counts.require(&["type-length field replaced by one declaring an arbitrary length", "inputs the allocating parser accepts"]);
         }
         "C09" | "C13" => {
-            let entries = entry_space(true);
-            let files: Vec<RFile> = entries.into_iter().step_by(tier.pick(5, 1)).map(|e| vec![getlist(vec![e])]).collect();
-            fam("entry product", gen_family(&files, tier.pick(0, 1), &proto, "generated: list-entry product x valid encodings"), &mut all);
-            fam("message product", gen_family(&message_space(), 1, &proto, "generated: message-level product x valid encodings"), &mut all);
-            fam("short strings", short_strings_family(tier.pick(2, 3), &proto), &mut all);
-            fam("mutations", mutation_family(&tier.pick(small_seeds.clone(), seed_set.clone()), tier, &proto, false), &mut all);
-            fam("splices", splice_family(&small_seeds, tier.pick(8, 100), &proto), &mut all);
-            fam("tlf replacements", tlf_replacement_family(&small_seeds, &proto), &mut all);
+            let entries = entry_space(false);
+            let files: Vec<RFile> = entries.into_iter().step_by(tier.pick(3, 1)).map(|e| vec![getlist(vec![e])]).collect();
+            fam("entry product", gen_family(&files, 1, &proto, "generated: list-entry product x valid encodings"), &mut all);
+            fam("message product", gen_family(&message_space(), tier.pick(1, 2), &proto, "generated: message-level product x valid encodings"), &mut all);
+            fam("short strings", short_strings_family(3, &proto), &mut all);
+            fam("structural strings", struct_strings_family(tier.pick(5, 6), &proto), &mut all);
+            fam("mutations", mutation_family(&seed_set, Tier::Thorough, &proto, tier == Tier::Thorough), &mut all);
+            fam("splices", splice_family(&small_seeds, tier.pick(100, 2000), &proto), &mut all);
+            fam("tlf replacements", tlf_replacement_family(&seed_set, &proto), &mut all);
             fam("long tlfs", c12_long_tlfs(&proto), &mut all);
             all.counts.require(&["checksum-repaired variants", "inputs the independent reader accepts", "inputs the independent reader rejects"]);
         }
         "C12" => {
             fam("1-byte TLFs", c12_tlf_family(1, &[1, 2, 3, 4], &proto, "all 1-byte type-length fields at four grammar sites"), &mut all);
             fam("2-byte TLFs", c12_tlf_family(2, &[1, 2, 3, 4], &proto, "all 2-byte type-length fields at four grammar sites"), &mut all);
-            let s3: &[u8] = tier.pick(&[2], &[1, 2, 3, 4]);
+            let s3: &[u8] = tier.pick(&[2, 4], &[1, 2, 3, 4]);
             fam("3-byte TLFs", c12_tlf_family(3, s3, &proto, "all 3-byte type-length fields"), &mut all);
             extra.put("three_byte_tlf_sites", s3.iter().map(|s| format!("s{}", s)).collect::<Vec<_>>());
             fam("long TLFs", c12_long_tlfs(&proto), &mut all);
